@@ -53,6 +53,8 @@ func runC11(c *Ctx) {
 	rulePoolSyncUse(c, p, "C11.sync-use")
 	rulePoolLimits(c, p, "C11.limits")
 	rulePoolCtorLeak(c, p, "C11.ctor-leak")
+	ruleHijackCloses(c, p, "C11.hijack-closes")
+	ruleCloseWaits(c, p, "C11.close-waits")
 	if roles := resolveDo(c, p); roles != nil {
 		ruleWatch(c, p, roles, "C11")
 	}
@@ -974,4 +976,79 @@ func rulePoolCtorLeak(c *Ctx, p *core.Program, rule string) {
 	}
 	c.R.Count("ch.Dial calls in package chpool", n)
 	c.R.Floor(rule, cfg, n, 1)
+}
+
+// ruleHijackCloses (C11): a resource taken out of the pool's accounting is closed by whoever took it.
+func ruleHijackCloses(c *Ctx, p *core.Program, rule string) {
+	c.R.Rule(rule, "every call of puddle Resource.Hijack in package chpool is followed on every path (to the function's exit or back to the loop it sits in) by a Close of a ch.Client: Hijack frees the slot without running the destructor, so a connection dropped that way stays open outside MaxConns and survives Pool.Close (no Hijack today)")
+	cfg := p.Cfg.Name
+	n, nd := 0, 0
+	for _, fn := range p.Funcs() {
+		if pkgOf(fn) == nil || pkgOf(fn).Path() != core.PkgPool || fn.Blocks == nil {
+			continue
+		}
+		nd += len(core.FindCalls(fn, isDisposer))
+		for _, call := range core.FindCalls(fn, isResourceMethod("Hijack")) {
+			n++
+			in := call.(ssa.Instruction)
+			hdr := core.LoopHeader(in)
+			w := core.ReachAvoiding(core.PointOf(in), func(x ssa.Instruction) bool {
+				if core.IsExit(x) {
+					return true
+				}
+				return hdr != nil && x == hdr.Instrs[0]
+			}, func(x ssa.Instruction) bool {
+				return core.IsCallOf(x, func(f *types.Func) bool { return core.IsMethod(f, core.PkgCh, "Client", "Close") })
+			}, nil)
+			if len(w) > 0 {
+				c.R.Bad(rule, core.CallKey(fn, call), cfg, p.Pos(call.Pos()), "the resource is hijacked (slot freed, destructor not run) and its client is not closed afterwards: the connection leaks", p.TrailString(w[0])...)
+			} else {
+				c.R.Ok(rule, core.CallKey(fn, call), cfg, p.Pos(call.Pos()), "client closed after Hijack on every path")
+			}
+		}
+	}
+	if n == 0 {
+		c.R.Ok(rule, "chpool", cfg, "", sprintf("no Hijack among the %d resource disposals of package chpool", nd)).Trivial = true
+	}
+	c.R.Count("resource disposals in package chpool", nd)
+	c.R.Floor(rule, cfg, nd, 3)
+}
+
+// ruleCloseWaits (C11): every Close of the pool returns after the teardown.
+func ruleCloseWaits(c *Ctx, p *core.Program, rule string) {
+	c.R.Rule(rule, "no exit of chpool.Pool.Close is reachable without a call that runs (or has waited for) the teardown: sync.Once.Do with the closure that closes the puddle pool, or the puddle Close itself - sync.Once makes a second caller wait until the first has finished; a `closed` flag that sends the second caller straight back lets a holder's Close return while the connections are still open")
+	cfg := p.Cfg.Name
+	fn := p.Method(core.PkgPool, "Pool", "Close")
+	if !c.must(p, "chpool.Pool.Close", fn != nil) {
+		return
+	}
+	tears := func(x ssa.Instruction) bool {
+		call, ok := x.(ssa.CallInstruction)
+		if !ok {
+			return false
+		}
+		f := core.CalleeFunc(call)
+		if f == nil {
+			return false
+		}
+		if core.IsMethod(f, pkgPuddle, "Pool", "Close") {
+			return true
+		}
+		if core.IsMethod(f, "sync", "Once", "Do") {
+			for _, a := range call.Common().Args {
+				if mc, ok := a.(*ssa.MakeClosure); ok {
+					if cf, ok := mc.Fn.(*ssa.Function); ok && core.ReachesCallee(cf, func(g *types.Func) bool { return core.IsMethod(g, pkgPuddle, "Pool", "Close") }, 2) {
+						return true
+					}
+				}
+			}
+		}
+		return false
+	}
+	w := core.ReachAvoiding(core.Entry(fn), core.IsExit, tears, nil)
+	if len(w) > 0 {
+		c.R.Bad(rule, core.FuncName(fn), cfg, p.Pos(w[0].At.Pos()), "Close can return without having run or waited for the teardown: a second, concurrent Close comes back while the first is still closing connections", p.TrailString(w[0])...)
+	} else {
+		c.R.Ok(rule, core.FuncName(fn), cfg, p.Pos(fn.Pos()), "every exit lies behind the (once-guarded) teardown")
+	}
 }
